@@ -86,7 +86,7 @@ class NxMixedGraph:
         """Check for equality of nodes, directed edges, and undirected edges."""
         return (
             isinstance(other, NxMixedGraph)
-            and self.nodes() == other.nodes()
+            and set(self.nodes()) == set(other.nodes())
             and (self.directed.edges() == other.directed.edges())
             and (self.undirected.edges() == other.undirected.edges())
         )
